@@ -1291,7 +1291,7 @@ impl DB {
                 .notify_writer();
         }
 
-        Ok(())
+        write_result
     }
 
     /// Check if the provided writer is the first writer in the writer queue.
